@@ -820,14 +820,25 @@ KINDS = {  # name -> (slot, recipe, rows, cols)
     "sliced_full": ("sl_full", {"k": "sliced_cls", "of": DN, "s0": [0, N], "s1": [0, N]}, N, N),
     "scalar_one": ("sc_one", {"k": "scalar", "c": 1.0, "n": N}, N, N),
     "tr_identity": ("tr_id", {"k": "transpose_cls", "of": ID}, N, N),
+    # complex and single-precision payloads (operand dtype = operator dtype: no promotion copy is made)
+    "dense_c16": ("Dc", {"k": "dense", "n": N, "dtype": "c16", "seed": 91, "sym": "gen"}, N, N),
+    "psd_c16": ("Pc", _psd({"k": "dense", "n": N, "dtype": "c16", "seed": 92, "sym": "psd"}), N, N),
+    "diag_c16": ("Dgc", {"k": "diag", "n": N, "dtype": "c16", "seed": 93, "pos": False}, N, N),
+    "adj_c16": ("Adc", {"k": "adjoint_cls", "of": {"k": "generic", "n": N, "dtype": "c16", "seed": 94, "sym": "gen"}}, N, N),
+    "sa_c16": ("Sac", _sa({"k": "generic", "n": N, "dtype": "c16", "seed": 95, "sym": "psd"}), N, N),
+    "dense_f4": ("Df4", {"k": "dense", "n": N, "dtype": "f4", "seed": 96, "sym": "gen"}, N, N),
+    "psd_f4": ("Pf4", _psd({"k": "dense", "n": N, "dtype": "f4", "seed": 97, "sym": "psd"}), N, N),
 }
+KIND_DTYPE = {"dense_c16": "c16", "psd_c16": "c16", "diag_c16": "c16", "adj_c16": "c16", "sa_c16": "c16",
+              "dense_f4": "f4", "psd_f4": "f4", "fft": "c16"}
 for _k, (_slot, _r, _rows, _cols) in KINDS.items():
-    ALPHABET["mv_" + _k] = [mk(_slot, _r), call("matvec", A=S(_slot), x=arr([_cols], "f8", 31))]
-    ALPHABET["mmf_" + _k] = [mk(_slot, _r), call("matvec", A=S(_slot), x=arr([_cols, 2], "f8", 32, layout="f"))]
-    ALPHABET["rmv_" + _k] = [mk(_slot, _r), call("rmatvec", A=S(_slot), x=arr([_rows], "f8", 33))]
-    ALPHABET["rmm_" + _k] = [mk(_slot, _r), call("rmatvec", A=S(_slot), x=arr([2, _rows], "f8", 34))]
-    ALPHABET["mm3_" + _k] = [mk(_slot, _r), call("matvec", A=S(_slot), x=arr([_cols, 3], "f8", 37))]
-    ALPHABET["rmm3_" + _k] = [mk(_slot, _r), call("rmatvec", A=S(_slot), x=arr([3, _rows], "f8", 38))]
+    _dt = KIND_DTYPE.get(_k, "f8")
+    ALPHABET["mv_" + _k] = [mk(_slot, _r), call("matvec", A=S(_slot), x=arr([_cols], _dt, 31))]
+    ALPHABET["mmf_" + _k] = [mk(_slot, _r), call("matvec", A=S(_slot), x=arr([_cols, 2], _dt, 32, layout="f"))]
+    ALPHABET["rmv_" + _k] = [mk(_slot, _r), call("rmatvec", A=S(_slot), x=arr([_rows], _dt, 33))]
+    ALPHABET["rmm_" + _k] = [mk(_slot, _r), call("rmatvec", A=S(_slot), x=arr([2, _rows], _dt, 34))]
+    ALPHABET["mm3_" + _k] = [mk(_slot, _r), call("matvec", A=S(_slot), x=arr([_cols, 3], _dt, 37))]
+    ALPHABET["rmm3_" + _k] = [mk(_slot, _r), call("rmatvec", A=S(_slot), x=arr([3, _rows], _dt, 38))]
 ALPHABET.update({
     "rsolve_chol": [PRE["P"], call("rsolve", A=S("P"), b=B, alg="Cholesky")],
     "rsolve_lu": [PRE["D"], call("rsolve", A=S("D"), b=arr([2, N], "f8", 35))],
@@ -877,7 +888,7 @@ def sweep_histories(maxlen, full_pairs=True, seed=0):
     for L in names:
         yield (L, )
     if maxlen >= 2:
-        two = names if full_pairs else sorted(ALPHABET3)
+        two = names if full_pairs else quick_pair_alphabet(seed, size=40)
         for a, b in itertools.product(two, two):
             yield (a, b)
     if maxlen >= 3:
@@ -928,7 +939,7 @@ def phase_sweep(run, pool, maxlen):
         "alphabet_size": len(ALPHABET), "reduced_alphabet_size": len(ALPHABET3), "max_length": maxlen, "histories": n[0],
         "exhaustive": True,
         "exhaustive_over": ("all 1-letter histories of the full alphabet, all 2-letter histories of the %s alphabet%s"
-                            % ("full" if maxlen >= 3 else "reduced", ", all 3-letter histories of the reduced alphabet"
+                            % ("full" if maxlen >= 3 else "seed-rotated 40-letter sub-", ", all 3-letter histories of the reduced alphabet"
                                if maxlen >= 3 else "")), "distinct_calls_compared_across_histories": len(table),
         "large_programs": len(large_programs_c18()), "function_x_kind_matrix_programs": len(matrix_programs_c18()),
         "history_independence_conflicts": len(conflicts),
@@ -1152,11 +1163,12 @@ def large_programs_c18(n=300):
 def matrix_programs_c18():
     out = []
 
-    def entries(slot, rows, cols):
+    def entries(slot, rows, cols, dt="f8"):
         sq = rows == cols
-        x = arr([cols], "f8", 51)
-        X = arr([cols, 2], "f8", 52)
-        xr = arr([rows], "f8", 53)
+        x = arr([cols], dt, 51)
+        X = arr([cols, 2], dt, 52)
+        xr = arr([rows], dt, 53)
+        R = {"k": "ref", "slot": slot}
         e = [("to_dense", call("to_dense", A=S(slot))), ("flatten", call("flatten", A=S(slot))),
              ("T", mk("m_T", {"k": "T", "of": {"k": "ref", "slot": slot}})),
              ("H", mk("m_H", {"k": "H", "of": {"k": "ref", "slot": slot}})),
@@ -1182,13 +1194,26 @@ def matrix_programs_c18():
                                                                                           alg="Arnoldi", akw={"max_iters": 3})),
                   ("eigmax", call("eigmax_d", A=S(slot))), ("plu", call("plu", A=S(slot))),
                   ("arnoldi", call("arnoldi", A=S(slot), v0=arr([cols], "f8", 55), max_iters=3)),
+                  ("smul_then_use", [mk("m_sm", {"k": "smul", "c": -2.0, "of": R}), call("matvec", A=S("m_sm"), x=X)]),
+                  ("rsmul_div", [mk("m_rs", {"k": "div", "of": {"k": "rsmul", "c": 3.0, "of": R}, "c": 2.0}),
+                                 call("to_dense", A=S("m_rs"))]),
+                  ("prod3_use", [mk("m_p3", {"k": "matmul", "a": {"k": "matmul", "a": R, "b": R}, "b": R}),
+                                 call("matvec", A=S("m_p3"), x=x), call("rmatvec", A=S("m_p3"), x=xr)]),
+                  ("sum_of_sum", [mk("m_ss", {"k": "add", "a": {"k": "add", "a": R, "b": R}, "b": {"k": "smul", "c": 2.0, "of": R}}),
+                                  call("matvec", A=S("m_ss"), x=x)]),
+                  ("bd_mult", [mk("m_bd", {"k": "blockdiag", "args": [R, R], "mult": [2, 1]}), call("to_dense", A=S("m_bd")),
+                               call("inv", out="m_bdi", A=S("m_bd"))]),
+                  ("inv_of_product", [mk("m_pp", {"k": "matmul", "a": R, "b": {"k": "T", "of": R}}),
+                                      call("inv", out="m_ppi", A=S("m_pp")), call("matvec", A=S("m_ppi"), x=x)]),
+                  ("T_of_T", [mk("m_tt", {"k": "T", "of": {"k": "T", "of": R}}), call("matvec", A=S("m_tt"), x=x)]),
+                  ("H_use", [mk("m_hh", {"k": "H", "of": R}), call("matvec", A=S("m_hh"), x=X), call("rmatvec", A=S("m_hh"), x=xr)]),
                   ("kron_self", mk("m_kr", {"k": "kron_fn", "a": {"k": "ref", "slot": slot}, "b": {"k": "ref", "slot": slot}})),
                   ("add_self", mk("m_add", {"k": "add", "a": {"k": "ref", "slot": slot}, "b": {"k": "ref", "slot": slot}}))]
         return e
 
     import copy
     for kname, (slot, rec, rows, cols) in sorted(KINDS.items()):
-        for ename, body in entries(slot, rows, cols):
+        for ename, body in entries(slot, rows, cols, KIND_DTYPE.get(kname, "f8")):
             body = body if isinstance(body, list) else [body]
             steps = [mk(slot, rec)] + [copy.deepcopy(b) for b in body]
             reps = [copy.deepcopy(b) for b in body if b["op"] == "call" and not b.get("out")]
@@ -1203,25 +1228,26 @@ def matrix_programs_c18():
         if rows != cols or kname in ("psd", ):
             continue
         P_ = _psd(rec) if rec.get("k") != "ann" else rec
+        _d = KIND_DTYPE.get(kname, "f8")
         for ename, body in [("cholesky", call("cholesky", A=S("mp"))),
-                            ("solve_cg", call("solve", A=S("mp"), b=arr([cols], "f8", 56), alg="CG", akw={"max_iters": 4},
-                                              x0=arr([cols], "f8", 57))),
-                            ("solve_chol", call("solve", A=S("mp"), b=arr([cols, 2], "f8", 58), alg="Cholesky")),
+                            ("solve_cg", call("solve", A=S("mp"), b=arr([cols], _d, 56), alg="CG", akw={"max_iters": 4},
+                                              x0=arr([cols], _d, 57))),
+                            ("solve_chol", call("solve", A=S("mp"), b=arr([cols, 2], _d, 58), alg="Cholesky")),
                             # degenerate parameters: zero iterations / tolerance met at once, caller-supplied guess
-                            ("solve_cg_zero_iters", call("solve", A=S("mp"), b=arr([cols], "f8", 56), alg="CG",
-                                                         akw={"max_iters": 0}, x0=arr([cols], "f8", 57))),
-                            ("cg_tol_met_at_once", call("cg", A=S("mp"), b=arr([cols, 2], "f8", 62), x0=arr([cols, 2], "f8", 63),
+                            ("solve_cg_zero_iters", call("solve", A=S("mp"), b=arr([cols], _d, 56), alg="CG",
+                                                         akw={"max_iters": 0}, x0=arr([cols], _d, 57))),
+                            ("cg_tol_met_at_once", call("cg", A=S("mp"), b=arr([cols, 2], _d, 62), x0=arr([cols, 2], _d, 63),
                                                         tol=2.0, max_iters=5)),
-                            ("cg_zero_rhs", call("cg", A=S("mp"), b=arr([cols], "f8", 64, kind="zeros"),
-                                                 x0=arr([cols], "f8", 57), max_iters=3)),
-                            ("gmres_one_iter", call("gmres", A=S("mp"), b=arr([cols], "f8", 56), x0=arr([cols], "f8", 57),
+                            ("cg_zero_rhs", call("cg", A=S("mp"), b=arr([cols], _d, 64, kind="zeros"),
+                                                 x0=arr([cols], _d, 57), max_iters=3)),
+                            ("gmres_one_iter", call("gmres", A=S("mp"), b=arr([cols], _d, 56), x0=arr([cols], _d, 57),
                                                     max_iters=1)),
-                            ("lanczos_one_iter", call("lanczos", A=S("mp"), v0=arr([cols], "f8", 59), max_iters=1)),
+                            ("lanczos_one_iter", call("lanczos", A=S("mp"), v0=arr([cols], _d, 59), max_iters=1)),
                             ("power_iteration_zero", call("power_iteration", A=S("mp"), max_iter=0)),
                             ("eig_all", call("eig", A=S("mp"), k=cols, which="SM")),
-                            ("lanczos", call("lanczos", A=S("mp"), v0=arr([cols], "f8", 59), max_iters=3)),
+                            ("lanczos", call("lanczos", A=S("mp"), v0=arr([cols], _d, 59), max_iters=3)),
                             ("sqrt_lanczos", call("unary_apply", A=S("mp"), f="sqrt", alg="Lanczos", akw={"max_iters": 3},
-                                                  x=arr([cols], "f8", 60)))]:
+                                                  x=arr([cols], _d, 60)))]:
             steps = [mk("mp", P_), copy.deepcopy(body), copy.deepcopy(body)]
             for j, s in enumerate(steps):
                 s["id"] = j
